@@ -80,7 +80,10 @@ def sweep(tier: str) -> Sweep:
     named = [(Datetime, "2023-02-30", "%Y-%m-%d"), (Datetime, "25", "%H"), (Datetime, "61", "%M"), (Datetime, "39", "%d"), (Datetime, "00", "%d"), (Datetime, "2023 59 1", "%Y %U %w"),
              (Datetime, "0000", "%Y"), (Datetime, "2023 000", "%Y %j"), (Serial, "", "%b"), (Serial, "", "%n"), (Storage, "", "%b"), (Storage, "B", "%B"), (Storage, "1x2", "%b"),
              (Version, "01.2.3", "%m.%n.%c"), (Version, "1.2.3rc", "%m.%n.%c%q"), (Naming, "", "%n"), (Datetime, "2023 09 Oct", "%Y %m %b"), (Datetime, "12\n", "%H"),
-             (Serial, "12\n", "%n"), (Serial, "٣", "%n"), (Datetime, "٢٠٢٣", "%Y"), (Storage, "12345678901234567890123456789B", "%B")]
+             (Serial, "12\n", "%n"), (Serial, "٣", "%n"), (Datetime, "٢٠٢٣", "%Y"), (Storage, "12345678901234567890123456789B", "%B"),
+             # numbers in exponent notation slip through the %b pattern (its '.' matches any character): whatever happens to them, it is a FormatterError
+             (Storage, "8e96093022208", "%b"), (Storage, "1024GB#1099511627776B#8e96093022208", "%G#%B#%b"), (Storage, "1KB 8e99", "%K %b"), (Storage, "8e999999999 1B", "%b %B"),
+             (Storage, "1e5 1KB", "%b %K"), (Storage, "9E-99999999 1B", "%b %B"), (Storage, "1e400 1e400", "%b %b"), (Storage, "8e96093022208#1B", "%b#%B")]
     for cls, text, fmt in named:
         for strict in (False, True):
             judge(sw, cls.__name__.lower(), lambda t, cls=cls, fmt=fmt, strict=strict: cls.parse(t, fmt, strict=strict), cls.gen_format(fmt), fmt, text, strict, "named")
